@@ -346,7 +346,8 @@ def run(ctx):
             t = bl.term
             if t["k"] != "switch" or bl.idx not in f.reachable() or bl.idx in div:
                 continue
-            succ = f.succ(bl.idx)
+            # the `otherwise -> unreachable` arm of an exhaustive match aborts nothing
+            succ = [x for x in f.succ(bl.idx) if f.blocks[x].term["k"] != "unreachable"]
             if not (any(x in div for x in succ) and not all(x in div for x in succ)):
                 continue
             nrej += 1
